@@ -1,8 +1,9 @@
 (* Props/C16_lemmas.v — top-level corollaries for C16 (statements in Props/C16.v). *)
 From Aldrin Require Import Codec.Base Codec.BaseProofs Codec.Value Codec.Ser Codec.De Codec.Skip
   Codec.RoundTrip gen.Consts.
+From Aldrin Require Import Codec.DeProofs.
 From Aldrin Require Import Derive.Ty Derive.TDe Derive.TSer Derive.Conforms Derive.TDeProofs
-  Derive.ConformsProofs Derive.DocAttr Derive.DocAttrProofs.
+  Derive.ConformsProofs Derive.TSerProofs Derive.TDeTotal Derive.DocAttr Derive.DocAttrProofs Derive.DeriveTie.
 From Coq Require Import ZifyBool ZifyNat ZifyN.
 Open Scope N_scope.
 Arguments N.eqb : simpl never.
@@ -94,3 +95,29 @@ Qed.
 
 Lemma unknown_variant_with_fallback vs id x : find_variant vs id = None -> conforms (TEnum vs true) (VEnum id x) = true.
 Proof. intros H. cbn [conforms]. rewrite H. reflexivity. Qed.
+
+(* ---------- the decode/encode cycle at top level ---------- *)
+Lemma cycle_top e t v bs : wf_ty t = true -> wf true v = true -> conforms t v = true -> serialize e v = Ok bs ->
+  exists x bs', tde_top t bs = Ok x /\ typed e t 0 v = Some x /\ tser_top t x = Ok bs' /\
+                de_as_value true bs' = Ok (norm t v) /\ tde_top t bs' = Ok x.
+Proof.
+  intros Ht Hwf Hc Hs. destruct (accepts e t v bs Ht Hwf Hc Hs) as (x & Hx & Ty).
+  unfold serialize in Hs. destruct (typed_cycle e v t 0%nat bs x Hwf Ht Hs Ty) as (bs' & Hb & Hde & Htde).
+  exists x, bs'. repeat split; auto.
+  - unfold de_as_value. pose proof (Hde (fuel_of (norm t v)) [] (le_n _)) as D. rewrite app_nil_r in D.
+    rewrite (de_value_stable true bs' _ _ D ltac:(discriminate)). reflexivity.
+  - unfold tde_top. pose proof (Htde (fuel2 v) [] (le_n _)) as D. rewrite app_nil_r in D.
+    rewrite (tde_value_stable t bs' _ _ D ltac:(discriminate)). reflexivity.
+Qed.
+
+Lemma accepts_full e t v bs : wf_ty t = true -> wf true v = true -> conforms t v = true -> serialize e v = Ok bs ->
+  exists x bs', tde_top t bs = Ok x /\ tser_top t x = Ok bs' /\ de_as_value true bs' = Ok (norm t v).
+Proof.
+  intros Ht Hwf Hc Hs. destruct (cycle_top e t v bs Ht Hwf Hc Hs) as (x & bs' & A & _ & B & C & _). eauto.
+Qed.
+
+Lemma fallback_preserves e t v bs : wf_ty t = true -> wf true v = true -> conforms t v = true -> serialize e v = Ok bs ->
+  exists x bs', tde_top t bs = Ok x /\ typed e t 0 v = Some x /\ tser_top t x = Ok bs' /\ tde_top t bs' = Ok x.
+Proof.
+  intros Ht Hwf Hc Hs. destruct (cycle_top e t v bs Ht Hwf Hc Hs) as (x & bs' & A & T & B & _ & D). eauto 6.
+Qed.
